@@ -760,6 +760,21 @@ func (m *Model) onePath(name string, op int64, o *absint.Oracle) *Path {
 	}
 	in.Edge = savedEdge
 	path.Events = nil
+	// a free list kept in a local slice whose address is taken (handed to the
+	// release helper by pointer) lives in a cell, not in a loop variable: at
+	// the start of a trip its contents are unknown like any other loop state
+	for _, ins := range fn.Blocks[0].Instrs {
+		al, ok := ins.(*ssa.Alloc)
+		if !ok {
+			continue
+		}
+		et := al.Type().Underlying().(*types.Pointer).Elem()
+		if st, isSl := et.Underlying().(*types.Slice); isSl && types.Identical(st.Elem(), ctxPtrT) {
+			if pv, ok := regs[al].(*absint.Ptr); ok && pv.Cell != nil {
+				pv.Cell.V = absint.NewVar("LOOPVAR."+al.Comment, et)
+			}
+		}
+	}
 	// phase B: one trip through the loop body
 	regs[m.VarOf["ctxp"]] = &absint.Ptr{Cell: ctx}
 	regs[m.VarOf["m"]] = M
